@@ -204,6 +204,94 @@ Theorem grpc_encode_roundtrip fid e :
 Proof. exact (grpc_encode_back fid e). Qed.
 Print Assumptions grpc_encode_roundtrip.
 
+(* ---- grpc.EncodeError in full: errors that already are, or wrap, a gRPC status ---- *)
+
+(* status.FromError's search (errors.As) finds the head of the statuses a shape holds *)
+Theorem from_error_finds_first_status e : find_status e = hd_error (statuses e).
+Proof. exact (find_status_hd e). Qed.
+Print Assumptions from_error_finds_first_status.
+
+(* closed form for EVERY error shape: a held status keeps its code and details (message:
+   its own when the error IS the status, the whole error text when it only wraps it) and
+   gains the ErrorResponse as last detail; otherwise the code comes from the flag table
+   (14 Unavailable, 4 DeadlineExceeded, 13 Internal, 2 Unknown) *)
+Theorem grpc_encode_full_closed_form fid e :
+  grpc_encode_full fid e =
+  let er := DResp (resp_of_core (encoded_core fid e)) in
+  match statuses e with
+  | s :: _ => {| gcode := gcode s; gmsg := if is_status e then gmsg s else error_string e;
+                 gdetails := (gdetails s ++ [er])%list |}
+  | [] => {| gcode := match serrs e with
+                      | c :: _ => if ctemporary c then 14 else if ctimeout c then 4 else if cfault c then 13 else 2
+                      | [] => 2 end;
+             gmsg := error_string e; gdetails := [er] |}
+  end.
+Proof. exact (grpc_full_spec fid e). Qed.
+Print Assumptions grpc_encode_full_closed_form.
+
+(* on errors that hold no status it is the table-only encoder of the theorems above *)
+Theorem grpc_encode_full_extends fid e :
+  statuses e = [] ->
+  grpc_encode_full fid e =
+  {| gcode := code_num (fst (fst (grpc_encode fid e))); gmsg := snd (fst (grpc_encode fid e));
+     gdetails := [DResp (snd (grpc_encode fid e))] |}.
+Proof. exact (grpc_full_extends fid e). Qed.
+Print Assumptions grpc_encode_full_extends.
+
+(* total: an error never becomes the OK status (the nil error), whatever its shape *)
+Theorem grpc_encode_full_never_ok fid e : wf_shape e = true -> gcode (grpc_encode_full fid e) <> 0.
+Proof. exact (grpc_full_never_ok fid e). Qed.
+Print Assumptions grpc_encode_full_never_ok.
+
+(* what DecodeError returns after EncodeError, every shape *)
+Theorem grpc_decode_after_encode fid e :
+  grpc_decode (grpc_encode_full fid e) =
+  match statuses e with
+  | s :: _ => match gdetails s with d :: _ => Some d | [] => Some (DResp (resp_of_core (encoded_core fid e))) end
+  | [] => Some (DResp (resp_of_core (encoded_core fid e)))
+  end.
+Proof. exact (grpc_full_decode fid e). Qed.
+Print Assumptions grpc_decode_after_encode.
+
+(* round trip: the decoded message is the ErrorResponse carrying name, id, message and
+   flags of the error — provided the first status held (if any) had no details of its own *)
+Theorem grpc_full_roundtrip_partial fid e :
+  (forall s, hd_error (statuses e) = Some s -> gdetails s = []) ->
+  grpc_decode (grpc_encode_full fid e) = Some (DResp (resp_of_core (encoded_core fid e))).
+Proof. exact (grpc_full_roundtrip fid e). Qed.
+Print Assumptions grpc_full_roundtrip_partial.
+
+(* ... and without that proviso it fails, even for an error that holds a service error:
+   EncodeError APPENDS the ErrorResponse, DecodeError reads the FIRST detail
+   (finding grpc-roundtrip-status-with-details) *)
+Theorem grpc_full_roundtrip_refuted :
+  exists fid e, serrs e <> [] /\
+    grpc_decode (grpc_encode_full fid e) <> Some (DResp (resp_of_core (encoded_core fid e))).
+Proof. exact grpc_full_roundtrip_fails. Qed.
+Print Assumptions grpc_full_roundtrip_refuted.
+
+(* encoding an encoded error again (interceptors, proxies), ANY number of times, changes
+   neither the code, nor the message, nor what DecodeError returns *)
+Theorem grpc_reencode_stable fid fid' n e :
+  let s := grpc_encode_full fid e in
+  let s' := Nat.iter n (reencode fid') s in
+  gcode s' = gcode s /\ gmsg s' = gmsg s /\ grpc_decode s' = grpc_decode s.
+Proof. exact (grpc_full_reencode fid fid' n e). Qed.
+Print Assumptions grpc_reencode_stable.
+
+(* non-vacuity: a wrapped NotFound status keeps its code, gets the whole text as message;
+   re-encoded twice it still decodes to the first ErrorResponse *)
+Example grpc_full_example :
+  let e := EWrap "ctx" (EStatus 5 "missing" []) in
+  let s := grpc_encode_full "n" e in
+  gcode s = 5 /\ gmsg s = "ctx: rpc error: code = NotFound desc = missing" /\
+  grpc_decode s = Some (DResp {| rname := "fault"; rid := "n"; rmsg := gmsg s; rtimeout := false; rtemporary := false; rfault := true |}) /\
+  List.length (gdetails (Nat.iter 2 (reencode "k") s)) = 3 /\
+  grpc_decode (Nat.iter 2 (reencode "k") s) = grpc_decode s /\
+  code_name 77 = "Code(77)" /\
+  gcode (grpc_encode_full "n" (EJoin (EPlain "p") (EServ {| cname := "t"; cid := "i"; cfield := None; cmsg := "m"; ctimeout := true; ctemporary := false; cfault := true |}))) = 4.
+Proof. vm_compute. repeat split. Qed.
+
 (* non-vacuity: a timeout service error under three wrappers and a join goes out as 408
    with its own fields; a header written after a body would not count *)
 Example encoder_example :
